@@ -109,6 +109,14 @@ def mutate(ctx, config, rng, prefix, rho, G, gser, a, cv, C33, proof):
     Cp = parse_pubkey(C33) if C33 != bytes(33) else None; C2 = add(Cp, G_pt())
     V(proof, "mut:other_commitment", C33=musig_cext(C2))
     # size / count mismatches
+    # sizes that are not powers of two but whose generator count and proof length are consistent with them (so that the size test itself,
+    # not an earlier count / length test, has to refuse)
+    if rng.random() < 0.3:
+        allg = bppp.gens(24)
+        for a2, b2 in ((3, 4), (4, 3), (5, 2), (6, 6), (7, 1), (1, 3), (12, 4), (2, 6)):
+            G2 = allg[:a2 + b2]; cv2 = [rng.randrange(n) for _ in range(b2)]
+            for r2 in range(0, 5):
+                V(bytes(rng.getrandbits(8) for _ in range(65 * r2 + 64)), "non_power_of_two:consistent_counts", a=a2, cv=cv2, G=G2, gser=bppp.gens_ser(G2))
     if a > 1: V(proof, "mut:g_len_halved", a=a // 2)
     V(proof, "mut:g_len_doubled", a=a * 2)
     if a >= 2: V(proof, "mut:g_len_not_power_of_two", a=a - 1 if a > 2 else 3)
